@@ -54,6 +54,10 @@ func c16(c *Ctx) {
 		return
 	}
 	cf := mc.Fn.(*ssa.Function)
+	if bm := boundMethod(mc); bm != nil && len(bm.Blocks) > 0 {
+		// a method value of a small entry struct used as the transaction body
+		cf = bm
+	}
 	var set *ssa.Call
 	nwrites := 0
 	eachInstr(cf, func(i ssa.Instruction) {
@@ -61,7 +65,7 @@ func c16(c *Ctx) {
 			n := facts.CalleeName(&cl.Call)
 			if strings.HasPrefix(n, "(*badger.Txn).Set") {
 				nwrites++
-				if n == "(*badger.Txn).Set" {
+				if n == "(*badger.Txn).Set" || plainSetEntry(cl) {
 					set = cl
 				}
 			}
@@ -276,4 +280,14 @@ func c16lookup(c *Ctx, a *procAnchors) {
 		})
 	}
 	R.Check("C16.lookup", "C16.lookup/only-the-store", c.rel(p.Pos(get.Pos())), "GetSignedVAABytes consults nothing of the Database but the badger handle", len(other) == 0, "fields read or written: "+strings.Join(other, ","))
+}
+
+// plainSetEntry: txn.SetEntry(badger.NewEntry(k, v)) — what txn.Set(k, v) is defined as (no TTL,
+// no meta, no discard flag chained onto the entry).
+func plainSetEntry(cl *ssa.Call) bool {
+	if facts.CalleeName(&cl.Call) != "(*badger.Txn).SetEntry" || len(cl.Call.Args) != 2 {
+		return false
+	}
+	ne, ok := cl.Call.Args[1].(*ssa.Call)
+	return ok && facts.CalleeName(&ne.Call) == "badger.NewEntry"
 }
